@@ -392,6 +392,109 @@ def p_c13(prop, tier):
     return generic(prop, tier, jobs, rule, ["numeric ordering/equality is judged on normalized vectors (what every caller passes); on the heap vector in debug-assertion builds histories stay within 62 limbs (HeapVec::set_len debug-asserts that bound)"] + ASSUME_ORACLE[1:], post=post)
 
 
+def p_c14(prop, tier):
+    t0 = time.time()
+    sd = seed()
+    workdir = fresh_workdir(prop)
+    cells = [(c, "rel") for c in CFG8] + [(c, "chk") for c in (CFG8 if tier == "thorough" else ["default", "compact", "nostd+compact"])]
+    violations, inconclusive, samples = [], [], []
+    total = 0
+    per = {}
+    for (cfg, prof) in cells:
+        try:
+            bindir = build(cfg, prof, ["eng_consts"])
+        except BuildError as e:
+            print(str(e))
+            inconclusive.append("eng_consts does not build for %s/%s" % (cfg, prof))
+            continue
+        dump = os.path.join(workdir, "dump-%s-%s.txt" % (cfg.replace("+", "_"), prof))
+        p = subprocess.run([os.path.join(bindir, "eng_consts")], stdout=open(dump, "w"), stderr=subprocess.PIPE, env=base_env(), timeout=120)
+        if p.returncode != 0:
+            # a panic while computing a power (e.g. overflow check) is itself a finding about that constant
+            body = {"property": prop, "engine": "eng_consts", "config": cfg, "profile": prof, "what": "constant dump ended abnormally", "stderr": tail(p.stderr.decode("utf-8", "replace"), 10)}
+            path = write_replay(prop, sd, len(violations), body)
+            violations.append({"sig": "dump-crash:%s:%s" % (cfg, prof), "what": body["what"] + ": " + body["stderr"][-200:], "replay": path})
+            continue
+        q = subprocess.run([PY, os.path.join(VERIF, "pyoracle", "consts.py"), dump], stdout=subprocess.PIPE, stderr=subprocess.PIPE, text=True, timeout=300)
+        if q.returncode != 0:
+            inconclusive.append("consts.py failed on %s/%s: %s" % (cfg, prof, tail(q.stderr, 3)))
+            continue
+        res = json.loads(q.stdout)
+        per["%s/%s" % (cfg, prof)] = res["checked"]
+        total += res["total"]
+        for mm in res["mismatches"]:
+            body = {"property": prop, "engine": "eng_consts", "config": cfg, "profile": prof, "what": "constant differs from its definition", "constant": mm}
+            path = write_replay(prop, sd, len(violations), body)
+            violations.append({"sig": "const:%s:%s" % (cfg, mm["constant"]), "what": "%s = %s, definition %s (%s/%s)" % (mm["constant"], mm["observed"][:80], mm["definition"][:80], cfg, prof), "replay": path})
+        for ms in res["missing"]:
+            inconclusive.append("%s/%s: %s" % (cfg, prof, ms))
+        if len(samples) < 8:
+            lines = open(dump).read().splitlines()
+            samples += [lines[i] for i in (5, 60, 200, 700) if i < len(lines)]
+    cov = {"evaluations": total, "distinct_nontrivial": total, "exhaustive": not inconclusive,
+           "rule": "complete enumeration: every table entry / computed power that the running program of each configuration sees (651 x 128-bit Eisel-Lemire significands and its exponent map for every q, 28+20 small integer powers through the crate's own accessor, 23+11 float powers as returned by pow_fast_path - table, std powf or the bundled libm -, the 5^135 big-integer constant, 10+66+10 Bellerophon entries with their binary exponents) is compared with its definition computed from Python integers. Every entry is distinct and non-trivial.",
+           "samples": samples[:12], "entries_checked_per_configuration": per}
+    write_evidence(prop, tier, sd, "exploration", cov, ["float powers are decided for this platform's libm (glibc) and the bundled libm as compiled here", "definitions are my reading of the property text and of the generators in etc/ (re-implemented, not imported)"], time.time() - t0, len(violations))
+    print("%s %s: %d constants in %d cells, %.1fs" % (prop, tier, total, len(per), time.time() - t0))
+    if total == 0:
+        inconclusive.append("nothing was compared")
+    return conclude(prop, violations, inconclusive)
+
+
+def p_c17(prop, tier):
+    if tier == "quick":
+        jobs = [Job("eng_float", "default", "rel", shards=16, budget=B(14)),
+                Job("eng_float", "compact", "rel", shards=4, budget=B(8), args=["--stride32", "16"]),
+                Job("eng_float", "default", "chk", shards=4, budget=B(8), args=["--stride32", "16"]),
+                Job("eng_float", "nostd+compact", "rel", shards=2, budget=B(8), args=["--stride32", "64"])]
+    else:
+        jobs = [Job("eng_float", "default", "rel", shards=16, budget=B(180)),
+                Job("eng_float", "compact", "rel", shards=8, budget=B(60)),
+                Job("eng_float", "default", "chk", shards=8, budget=B(60)),
+                Job("eng_float", "alloc", "rel", shards=4, budget=B(30), args=["--stride32", "4"]),
+                Job("eng_float", "nostd+compact", "rel", shards=8, budget=B(60))]
+    rule = ("every f32 bit pattern (all 2^32, default configuration; strided in the others in quick) and f64 patterns (every biased exponent x 72 structured/random fractions x both signs, then uniform random 64-bit patterns): "
+            "is_denormal / exponent() / mantissa() compared with the fields extracted by shifts and masks written from IEEE-754; mantissa x 2^exponent recomputed with exact hardware scalings and compared with |x| for finite x; "
+            "to_bits/from_bits lossless; slow::b / bh; extended_to_float(biased exponent, fraction) gives exactly those fields; from_u64. "
+            "distinct_nontrivial counts the enumerated (hence distinct) patterns only; random f64 patterns are in evaluations but not in the distinct count.")
+
+    def post(m, results, cov, violations, inconclusive, workdir, sd):
+        ex = [(jn, e) for (jn, i, e) in m.extras]
+        cov["distinct_nontrivial"] = sum(int(e.get("distinct_by_enumeration", 0)) for (jn, e) in ex)
+        d = [e for (jn, e) in ex if jn == "eng_float-default-rel"]
+        cov["f32_exhaustive_in_default_configuration"] = bool(d) and all(e.get("f32_all_patterns_in_shard_range") for e in d)
+        cov["exhaustive_scope"] = "f32: all 2^32 bit patterns (when the flag above is true); f64 is sampled"
+
+    def exh(m, cov):
+        return cov.get("f32_exhaustive_in_default_configuration", False)
+
+    return generic(prop, tier, jobs, rule, ["x86_64 SSE2 float semantics (from_bits/to_bits preserve NaN payloads)"] + ASSUME_ORACLE[1:], post=post, exhaustive=exh)
+
+
+def p_c18(prop, tier):
+    if tier == "quick":
+        jobs = [Job("eng_float", c, pr, shards=n, budget=B(12)) for (c, pr, n) in [("default", "rel", 6), ("compact", "rel", 4), ("default", "chk", 3), ("compact", "chk", 3)]]
+    else:
+        jobs = [Job("eng_float", c, pr, shards=n, budget=B(120)) for (c, pr, n) in [("default", "rel", 8), ("compact", "rel", 8), ("default", "chk", 4), ("compact", "chk", 4), ("nostd+compact", "rel", 4), ("alloc", "rel", 2)]]
+    rule = ("(significand in [2^63,2^64), biased exponent) pairs: every exponent in [-63,2100] (f64) / [-63,320] (f32) x 24 significands built from pattern classes (kept bits all-zero / all-ones / odd / random; guard region 0, 1, half-1, half, half+1, all ones, random) "
+            "x 3 variants (nearest-even as Bellerophon uses it, nearest with sticky 'truncated' as positive_digit_comp uses it, truncating round_down), plus for every subnormal shift 1..64 the exact halfway pattern +-1, plus uniform random pairs; "
+            "round::<F> + extended_to_float compared with an independent exact integer rounding (u128), which is itself cross-checked by the decimal oracle on 1/257 of the cases; lower_n_mask / lower_n_halfway / nth_bit for all widths 0..=64. "
+            "The truncating variant is judged below 2^(emax+1) only (above, round() saturates to infinity by design). Non-trivial/distinct = distinct (significand, exponent, variant, format).")
+    return generic(prop, tier, jobs, rule, ["exponent domain as the property states: subnormal shifts of at most 64 bits (exponent >= -63)"] + ASSUME_ORACLE[1:])
+
+
+def p_c19(prop, tier):
+    if tier == "quick":
+        jobs = [Job("eng_front", c, pr, shards=n, budget=B(12)) for (c, pr, n) in [("default", "rel", 6), ("compact", "rel", 3), ("default", "chk", 3), ("alloc", "rel", 2)]]
+    else:
+        jobs = [Job("eng_front", c, pr, shards=n, budget=B(120)) for (c, pr, n) in [("default", "rel", 8), ("compact", "rel", 4), ("default", "chk", 4), ("compact", "chk", 2), ("alloc", "rel", 2), ("nostd+compact", "rel", 2)]]
+    rule = ("byte strings through all seven shipped copies of the front-end (examples/simple.rs, fuzz/fuzz_targets/parse.rs, tests/integration_tests.rs and the four etc/correctness copies, taken from the working tree at build time) for f32 and f64: "
+            "grammar-directed strings (every optional part present / absent / empty, signs, leading and trailing zeros, '.' or exponent marker without digits, exponents around and far beyond +-2^31, numeric payloads from the boundary / range-end / tie / seam generators, arbitrary suffix bytes), "
+            "byte-level mutations of such strings, special literals nan / inf / infinity in random case (also truncated and extended), alphabet soup and pure random bytes, plus fixed probes; "
+            "monitor: (value bits incl. sign, remaining suffix) equal to a reference scanner written from the grammar + the exact rounding oracle, and no panic. Non-trivial/distinct = distinct input string.")
+    return generic(prop, tier, jobs, rule, ["copies that accept nan/inf/infinity are recognised by the presence of their case-insensitive matcher; NaN is compared as 'is a NaN' (payload/sign not judged)"] + ASSUME_ORACLE)
+
+
 def hashlib_sig(s):
     import hashlib
     return hashlib.sha1(s.encode()).hexdigest()[:16]
@@ -399,7 +502,7 @@ def hashlib_sig(s):
 
 PLANS = {
     "C01": p_oracle, "C02": p_oracle, "C06": p_oracle, "C07": p_oracle,
-    "C03": p_c03, "C04": p_c04, "C05": p_c05, "C09": p_c09, "C10": p_c10, "C11": p_c11, "C12": p_c12, "C13": p_c13,
+    "C03": p_c03, "C04": p_c04, "C05": p_c05, "C09": p_c09, "C10": p_c10, "C11": p_c11, "C12": p_c12, "C13": p_c13, "C14": p_c14, "C17": p_c17, "C18": p_c18, "C19": p_c19,
 }
 
 
